@@ -182,7 +182,7 @@ func runTablesTwoHandshakes(r *ev.Run, shard, nshards int, fullFocus bool) {
 	name := "1 proxy: clients A and B finish their handshake at the same time, then socks clear"
 	outcomes := map[string]bool{}
 	t := explore.Tree{Bound: bound, Deadline: time.Now().Add(dl)}
-	t.RunShard(shard, nshards, func(c *explore.Chooser) {
+	t.RunShard2(shard, nshards, func(c *explore.Chooser) {
 		// quick: scheduling points at the proxy's client list only (the location the race pass
 		// named), every schedule with at most one preemption there; thorough: the full focus
 		focus := []string{"Clients"}
